@@ -478,7 +478,15 @@ class ConcCheck(SeqCheck):
                 else:
                     cid = int(m.group(1))
                     text = next((c for c in cases if c.startswith(f'case {cid} ')), '')
-                    self.script_bad.append((m.group(3).strip(), text + 'end\n', path))
+                    what = m.group(3).strip()
+                    if 'timeout' in what:
+                        # a wait that ran into the 3 s limit may be scheduling noise on a loaded machine: the case counts only if it
+                        # fails again when replayed alone
+                        one = os.path.join(ctx.work, f'script{k}-retry{cid}.cases'); open(one, 'w').write(text + 'end\n')
+                        again = [common.sh([os.path.join(bindir, 'concrun'), one], timeout=600)[1] for _ in range(2)]
+                        if not all('MISMATCH' in a for a in again):
+                            ok += 1; ctx.notes.setdefault('script_timeouts_not_reproduced', []).append(cid); continue
+                    self.script_bad.append((what, text + 'end\n', path))
             if rc not in (0, 1) and not self.script_bad:
                 self.script_bad.append((f'concrun exited with code {rc}', res[-2000:], path))
         ctx.notes['script_suite'] = {'cases': total, 'ok': ok, 'atomic_events': events, 'generator': 'concmodel gen (extracted RAn.step_a, stale reads via Model.pick)'}
